@@ -50,6 +50,8 @@ type Summary struct {
 	DetReruns   int            `json:"determinism_reruns"`
 	DetMismatch int            `json:"determinism_mismatches"`
 	Leaked      int            `json:"runs_with_leaked_goroutines"`
+	Hung        int            `json:"hung_runs"`
+	HungSeeds   []string       `json:"hung_seeds"`
 	WallS       float64        `json:"wall_s"`
 	Stopped     string         `json:"stopped,omitempty"`
 	PosComplete int            `json:"seeds_with_complete_position_enumeration"`
@@ -96,6 +98,25 @@ func Main(t *testing.T) {
 	if rp := os.Getenv("VERIF_REPLAY"); rp != "" {
 		os.Exit(replayMain(t, p, rp))
 	}
+	if one := os.Getenv("VERIF_ONE"); one != "" {
+		// debugging aid: one run seed (as printed in reports) with the full trace
+		seed, _ := strconv.ParseUint(one, 10, 64)
+		params := Params{}
+		for _, kv := range strings.Split(os.Getenv("VERIF_PARAMS"), ",") {
+			if i := strings.IndexByte(kv, '='); i > 0 {
+				n, _ := strconv.Atoi(kv[i+1:])
+				params[kv[:i]] = n
+			}
+		}
+		r := Exec(t, p, simrt.NewTape(seed, params), tier, true)
+		for _, l := range r.Trace {
+			fmt.Println(l)
+		}
+		r.Trace = nil
+		b, _ := json.MarshalIndent(r, "", " ")
+		fmt.Println(string(b))
+		os.Exit(0)
+	}
 	base := uint64(envInt("VERIF_SEED", 1))
 	runs := envInt("VERIF_RUNS", 100)
 	posBudget := envInt("VERIF_POS_BUDGET", 0)
@@ -120,6 +141,7 @@ func Main(t *testing.T) {
 		hashLog, _ = os.Create(hl)
 		defer hashLog.Close()
 	}
+	var curSeed uint64
 	account := func(r *Result) {
 		sum.Execs++
 		if hashLog != nil {
@@ -129,6 +151,12 @@ func Main(t *testing.T) {
 		sum.Contended += int64(r.Contended)
 		sum.SimNS += r.SimNS
 		sum.Leaked += r.Leaked
+		if r.Hung {
+			sum.Hung++
+			if len(sum.HungSeeds) < 5 {
+				sum.HungSeeds = append(sum.HungSeeds, fmt.Sprintf("%d:%s", curSeed, r.Stuck))
+			}
+		}
 		for k, v := range r.Probes {
 			sum.Probes[k] += v
 		}
@@ -150,7 +178,7 @@ func Main(t *testing.T) {
 			}
 		}
 		if r.Infra != "" && len(sum.Infra) < 20 {
-			sum.Infra = append(sum.Infra, r.Infra)
+			sum.Infra = append(sum.Infra, fmt.Sprintf("seed %d: %s", curSeed, r.Infra))
 		}
 	}
 	handle := func(seed uint64, params Params, r *Result) {
@@ -194,6 +222,7 @@ func Main(t *testing.T) {
 			break
 		}
 		seed := SeedFor(base, i)
+		curSeed = seed
 		if sum.Seeds == 0 {
 			sum.FirstSeed = seed
 		}
